@@ -47,7 +47,8 @@ package atree
 
 //@ func (m *OrderedMap) setCallbackWithChild(comparator, hip, key, child, maxInlineSize)  serves C10 C11
 //@   before[C10] mutableValueNotifier.setParentUpdater: maxInlineSize == ite(old(maxInlineSize) < wszV(child), 0, old(maxInlineSize) - wszV(child))
-//@   modifies Array.parentUpdater, OrderedMap.parentUpdater, alloc
+//@   ensures[C10 C11] contV(child) ==> wired > old(wired)
+//@   modifies Array.parentUpdater, OrderedMap.parentUpdater, ghost.wired, alloc
 
 //@ pred mapExtra(m *OrderedMap) = ite(is(m.root, *MapDataSlab), as(m.root, *MapDataSlab).extraData, as(m.root, *MapMetaDataSlab).extraData)
 
@@ -71,7 +72,7 @@ package atree
 //@   assume mapRootReady(m) because "tree invariant at the root (composition)"
 //@   ensures[C10] err == nil ==> notified > old(notified)
 //@   # an over-full root is split before the operation is reported to the parent (and before it returns)
-//@   before[C05] OrderedMap.notifyParentIfNeeded: mapRootFits(m)
+//@   before[C05 C12] OrderedMap.notifyParentIfNeeded: mapRootFits(m)
 //@   # the element count kept with the root goes up exactly when no previous value existed under the key, and stays with the root
 //@   # through promotion and split
 //@   before[C02] OrderedMap.notifyParentIfNeeded: mapExtra(m) != nil && mapExtra(m) == old(mapExtra(m)) &&
@@ -88,7 +89,7 @@ package atree
 //@   assume mapRootReady(m) because "tree invariant at the root (composition)"
 //@   ensures[C10] err == nil ==> notified > old(notified)
 //@   # removal can grow a slab (a collapsed collision group is replaced by its last element): an over-full root is split here too
-//@   before[C05] OrderedMap.notifyParentIfNeeded: mapRootFits(m)
+//@   before[C05 C12] OrderedMap.notifyParentIfNeeded: mapRootFits(m)
 //@   before[C02] OrderedMap.notifyParentIfNeeded: mapExtra(m) != nil && mapExtra(m) == old(mapExtra(m)) && mapExtra(m).Count == old(mapExtra(m).Count) - 1
 //@   modifies heap, ghost.sto, ghost.issued, ghost.stored, ghost.touched, ghost.notified, ghost.updFail, alloc
 
@@ -149,7 +150,7 @@ package atree
 //@   requires m.Storage != nil && m.root != nil && m.digesterBuilder != nil && hip != nil && comparator != nil && key != nil
 //@   ensures err != nil ==> v == nil
 //@   before[C10] OrderedMap.setCallbackWithChild: maxInlineSize == maxInlineMapElementSize - bs(keyStorable) - 1
-//@   modifies OrderedMap.parentUpdater, Array.parentUpdater, alloc
+//@   modifies OrderedMap.parentUpdater, Array.parentUpdater, alloc, ghost.wired
 
 //@ # the root is asked about the caller's key with its first-level digest (second view: only the hand-off is checked here)
 //@ func (m *OrderedMap) get@args(comparator, hip, key) (k, v, err)  serves C02
@@ -223,3 +224,27 @@ package atree
 //@   before[C02] OrderedMap.notifyParentIfNeeded: m.root == old(m.root) && mapExtra(m) == old(mapExtra(m)) && mapExtra(m).TypeInfo == typeInfo
 //@   before[C02] storeSlab: arg_slab == m.root && m.root == old(m.root) && mapExtra(m) == old(mapExtra(m)) && mapExtra(m).TypeInfo == typeInfo
 //@   modifies heap, ghost.sto, ghost.issued, ghost.stored, ghost.touched, ghost.notified, ghost.updFail, alloc
+
+//@ # ---- the public keyed operations (C02, C11): the internal operation is called with the caller's arguments; a container that
+//@ # was overwritten / removed while stored inline is written to its own slab before it is handed back (so that later changes through
+//@ # the returned value are not lost), and what the caller gets is the reference to it
+//@ func (m *OrderedMap) Set(comparator, hip, key, value) (r, err)  serves C02 C11 C18
+//@   requires m.Storage != nil && m.root != nil && m.digesterBuilder != nil && hip != nil && comparator != nil && key != nil && value != nil
+//@   before[C02] OrderedMap.set: arg_recv == m && arg_comparator == comparator && arg_hip == hip && arg_key == key && arg_value == value
+//@   before[C11] uninlineStorableIfNeeded: arg_storage == m.Storage && arg_storable == storable
+//@   ensures[C18] err != nil ==> r == nil
+//@   modifies heap, ghost.sto, ghost.issued, ghost.stored, ghost.touched, ghost.notified, ghost.updFail, ghost.refusals, alloc
+
+//@ func (m *OrderedMap) Remove(comparator, hip, key) (k, v, err)  serves C02 C11 C18
+//@   requires m.Storage != nil && m.root != nil && m.digesterBuilder != nil && hip != nil && comparator != nil && key != nil
+//@   before[C02] OrderedMap.remove: arg_recv == m && arg_comparator == comparator && arg_hip == hip && arg_key == key
+//@   before[C11] uninlineStorableIfNeeded#1: arg_storage == m.Storage && arg_storable == keyStorable
+//@   before[C11] uninlineStorableIfNeeded#2: arg_storage == m.Storage && arg_storable == valueStorable
+//@   ensures[C18] err != nil ==> k == nil && v == nil
+//@   modifies heap, ghost.sto, ghost.issued, ghost.stored, ghost.touched, ghost.notified, ghost.updFail, ghost.refusals, alloc
+
+//@ # membership: a key-not-found answer of the lookup is "absent", every other failure is reported
+//@ func (m *OrderedMap) Has(comparator, hip, key) (ok, err)  serves C02 C18
+//@   before[C02] OrderedMap.get: arg_recv == m && arg_comparator == comparator && arg_hip == hip && arg_key == key
+//@   ensures[C02] ok == (mcurErr(m, key) == 0) && (err != nil) == (mcurErr(m, key) != 0 && mcurErr(m, key) != 1)
+//@   modifies alloc
